@@ -146,6 +146,22 @@ def nonce_episodes(tier, seed):
                     E.append(dict(suite=s["name"], dir="-", ops=["dtls-lost-final-flight-" + loser], lens=[], lines=L3, kind="nonce"))
             L += ["close %s" % rnd.choice(["c0", "s0"]), "pump c0 s0 max=6", "send c0 3", "send s0 3", "pump c0 s0 max=6"]
             E.append(dict(suite=s["name"], dir="-", ops=["mixed-sends"], lens=[], lines=L, kind="nonce"))
+    # TLS 1.3 early data around a HelloRetryRequest: the client writes application data before ClientHello1 leaves, and again after
+    # each further step of the handshake - whatever is sealed, no (key, nonce) pair may repeat
+    srv = "keys ks id=%s ca=%s tickets=1 psk=1 psk13=1 early=16384" % (RSA[0], RSA[1])
+    cli = "keys kc ca=%s psk=1 psk13=1 early=16384" % RSA[1]
+    for mode, so, co, first in (("ticket", "ver=T13 early=16384", "ver=T13 sid=R", True), ("extpsk", "ver=T13 early=16384", "ver=T13 early=16384", False)):
+        for hrr in (True, False):
+            g_s, g_c = (" groups=24", " groups=23,24 shares=1") if hrr else ("", "")
+            for w in range(0, 7):
+                L = [srv, cli]
+                if first:
+                    L += ["new s9 server keys=ks %s" % so, "new c9 client keys=kc %s" % co, "link c9 s9", "pump c9 s9 max=40", "send c9 3", "pump c9 s9 max=5",
+                          "close c9", "pump c9 s9 max=5", "del c9", "del s9"]
+                L += ["new s0 server keys=ks %s%s" % (so, g_s), "new c0 client keys=kc %s%s" % (co, g_c), "link c0 s0", "send c0 12", "send c0 30"]
+                if w: L.append("pump c0 s0 max=%d" % w)
+                L += ["send c0 7", "pump c0 s0 max=1", "send c0 9", "send s0 4", "pump c0 s0 max=40", "send c0 5", "send s0 6", "pump c0 s0 max=10"]
+                E.append(dict(suite="T13-early-%s%s" % (mode, "-hrr" if hrr else ""), dir="-", ops=["early-write-at-%d" % w], lens=[], lines=L, kind="nonce"))
     return E
 
 def render(eps, start_id=0):
